@@ -94,6 +94,7 @@ CONSTRUCTS = {
                     ("order", "enter-before-children", "True"),
                     ("order", "exit-after-children", "True"),
                     ("order", "one-enter-one-exit", "True"),
+                    ("order", "fallthrough-before-break-continue", "True"),
                 },
             )
         ],
@@ -118,6 +119,7 @@ CONSTRUCTS = {
                     ("order", "enter-before-children", "True"),
                     ("order", "exit-after-children", "True"),
                     ("order", "one-enter-one-exit", "True"),
+                    ("order", "fallthrough-before-break-continue", "True"),
                 },
             )
         ],
